@@ -71,7 +71,7 @@ def rows(pid, repo, res):
     if hits:
         failed['I.no_statics'] = ['shared mutable state found: %s' % hits]
     elif unknown:
-        und.append('inventory: `static` items of a type this check cannot classify as immutable plain data: %s' % unknown)
+        und.append(({'C20'}, 'inventory: `static` items of a type this check cannot classify as immutable plain data: %s' % unknown))
     # I.phase_assignments (C08): every phase change goes through PhaseGuard::{enter, switch}
     inv = (res.get('verus') or {}).get('inventory')
     if inv is not None:
@@ -225,7 +225,7 @@ def rows(pid, repo, res):
             elif (f, m.group(1)) not in {('gc.rs', 'set_needs_trace'), ('gc.rs', 'set_live')} or (m.group(1) == 'set_live' and encl != 'assume_init'):
                 stray.append((f, encl, m.group(1)))
     if stray:
-        und.append('inventory: header state is written by code the contracts do not speak about: %s' % sorted(set(stray)))
+        und.append(({'C01', 'C02', 'C04', 'C05', 'C06', 'C07', 'C11', 'C14'}, 'inventory: header state is written by code the contracts do not speak about: %s' % sorted(set(stray))))
     # I.api_surface: the finite families of Kani rows cover the public API that EXISTS; a new safe public function whose body uses `unsafe`, or
     # a Collect impl for a new type, is code no row instantiates.  Compared with the surface recorded for the tree the rows were written for.
     import json
@@ -238,7 +238,19 @@ def rows(pid, repo, res):
     rows['I.api_surface'] = dict(serves=['C01', 'C06', 'C16', 'C19'], kind='inventory', fn='src/*.rs',
                                  text='every `pub fn` of the API files, every safe `pub fn` whose body uses `unsafe`, and every type with a provided `unsafe impl Collect` is one the rows were written for (contracts/api_baseline.json); removals are fine: the properties quantify over the public API, and a new entry point is code no row instantiates')
     if new_api:
-        und.append('inventory: new public surface that no row instantiates (a safe pub fn using `unsafe`, or a Collect impl for a new type): %s' % new_api)
+        # which properties speak about the file the new entry point lives in (a new method of lock.rs says nothing about pacing)
+        REL = {'lock.rs': {'C01', 'C06'}, 'barrier.rs': {'C01', 'C06'}, 'gc.rs': {'C01', 'C06', 'C07', 'C17', 'C18', 'C19'},
+               'gc_weak.rs': {'C01', 'C05', 'C07', 'C19'}, 'arena.rs': {'C01', 'C03', 'C07', 'C08', 'C09', 'C11', 'C20'},
+               'dynamic_roots.rs': {'C01', 'C14', 'C19'}, 'slice.rs': {'C11', 'C17', 'C18', 'C19'}, 'zst_cache.rs': {'C19'},
+               'context.rs': {'C01', 'C03', 'C05', 'C06', 'C07', 'C10'}, 'metrics.rs': {'C09', 'C10', 'C20'}}
+        who = set()
+        for x in new_api:
+            if x.startswith('Collect for'):
+                who |= {'C16', 'C01'}
+            else:
+                f = x.replace('new pub fn ', '').split('::')[0]
+                who |= REL.get(f, {'C01'})
+        und.append((who, 'inventory: new public surface that no row instantiates (a new pub fn, a safe pub fn using `unsafe`, or a Collect impl for a new type): %s' % new_api))
     # I.zst_no_conjuring (C19): every safe pub fn of ZstCache that returns a Gc<'gc, T> for a caller-chosen T is given a T by the caller
     z = src.get('zst_cache.rs', '')
     rows['I.zst_no_conjuring'] = dict(serves=['C19'], kind='inventory', fn='src/zst_cache.rs',
@@ -268,9 +280,17 @@ def rows(pid, repo, res):
         for tp in tps:
             if re.search(r"Gc<'gc,\s*%s\b" % tp, ret) and not unsafe_ and not re.search(r':\s*%s\b' % tp, params):
                 if re.search(r'Fn(?:Once|Mut)?\s*\([^)]*\)\s*->\s*%s\b' % tp, params + ' ' + gens + ' ' + z[k1 + 1:b0]):
-                    und.append('inventory: ZstCache::%s takes a closure producing %s instead of a %s: whether it is always called cannot be decided here' % (name, tp, tp))
+                    und.append(({'C19'}, 'inventory: ZstCache::%s takes a closure producing %s instead of a %s: whether it is always called cannot be decided here' % (name, tp, tp)))
                 else:
                     bad.append(name)
     if bad:
         failed['I.zst_no_conjuring'] = ['safe functions returning a Gc<T> without being given a T: %s' % bad]
-    return rows, failed, und
+    # keep the messages that concern this property (None = every property)
+    msgs = []
+    for u in und:
+        if isinstance(u, tuple):
+            if pid in u[0]:
+                msgs.append(u[1])
+        else:
+            msgs.append(u)
+    return rows, failed, msgs
